@@ -82,6 +82,15 @@ func c04Content(inst *sh.Inst, hist ...int) (string, sh.Snapshot, error) {
 			lines = append(lines, fmt.Sprintf("ROOTPOINTS{%s}\n", sh.CanonPoints(e.Points)))
 		}
 	}
+	// rows of the universe nodes as they are in the file: a node that has points but no edge yet is invisible to the
+	// API, its acknowledged points must survive all the same
+	if rowsOf, err := sh.ReadNodePointRows(inst.File, c04.Universe); err == nil {
+		for _, u := range c04.Universe {
+			lines = append(lines, fmt.Sprintf("ROWS %s{%s}\n", u, rowsOf[u]))
+		}
+	} else {
+		return "", snap, err
+	}
 	sort.Strings(lines)
 	return strings.Join(lines, ""), snap, nil
 }
